@@ -69,7 +69,7 @@ def exclTags (ps : PState) (toks : List String) : List String × Bool :=
     -- F10: tensor-tensor, iterator path, the reuse tensor is the second operand: CopyIter overwrites b before it is read
     let f10 := match oa, ob, reuseId with
       | some (_, x), some (bid, y), some rid =>
-        rid == bid && (x.requiresIterator || y.requiresIterator || x.ap.o.col != y.ap.o.col) && (!isCmp || same)
+        rid == bid && ((isCmp && same) || (!isCmp && (x.requiresIterator || y.requiresIterator || x.ap.o.col != y.ap.o.col)))
       | _, _, _ => false
     -- F32: incr mode with one-element operands: `Vec<Op>(a, b)` clobbers the first operand
     let oneCell (o : Option (Nat × Dense)) (tok : String) := match o with | some (_, d) => d.win.len == 1 | none => tok.startsWith "#"
